@@ -10,5 +10,4 @@ def run(ctx):
                         "CountGenerator: 1 rule with periods 1..6 / 2 rules, intervals 1..2, increments 1..3, elapsed 0..9, three hash residues (ids found by search)"]
 
 def replay(ctx, rp):
-    vlib.log("replay: the file holds the concrete input; re-run ./check C20")
-    return 2
+    return vlib.replay_any(ctx, rp)
